@@ -188,9 +188,187 @@ def r2_mem_loops(ctx, F):
     ctx.floor("mem-loops", nloops, 2)
 
 
+# ---- R3: sparse Merkle tree procedures address the tree by (LEAF_DEPTH, K[3], current root) --------------------------------
+SMT = "/repo/stdlib/asm/collections/smt.masm"
+
+
+class SmtFlow:
+    """provenance interpretation of smt.masm: values are input elements, constants or fresh results (advice, hashes, Merkle
+    results); every path through if.true/else is followed; Merkle instructions record their operands"""
+    def __init__(self, module, consts):
+        self.m, self.consts = module, consts
+        self.n = 0
+
+    def fresh(self, tag):
+        self.n += 1
+        return ("f", self.n, tag)
+
+    def move(self, stack, name):
+        exp = rules_c05.family_expected(name)
+        if exp is None or "ok" not in exp:
+            return False
+        while len(stack) < 40:
+            stack.append(("deep", len(stack)))
+        new = []
+        for x in exp["ok"]:
+            if x.const_value() == 0:
+                new.append(("c", 0))
+            else:
+                (v,) = x.vars()
+                new.append(stack[int(v[1:])])
+        stack[:] = new + stack[32:]
+        return True
+
+    def run(self, body, stack, events, depth=0):
+        """returns the list of (stack, events) at the end of the block, one per path"""
+        states = [(list(stack), list(events))]
+        for node in body:
+            nxt = []
+            for st, ev in states:
+                if node[0] == "ins":
+                    self.step(node[1], node[2], st, ev, depth, nxt)
+                elif node[0] == "if":
+                    st.pop(0)
+                    nxt += self.run(node[1], st, ev, depth)
+                    nxt += self.run(node[2], st, ev, depth)
+                else:
+                    raise Undecided("%s: control flow %s" % (self.m.path, node[0]))
+            states = nxt
+            if len(states) > 256:
+                raise Undecided("too many paths")
+        return states
+
+    def step(self, ins, ln, st, ev, depth, out):
+        parts = ins.split(".")
+        op, imm = parts[0], parts[1:]
+        while len(st) < 40:
+            st.append(("deep", len(st)))
+        if op == "exec":
+            name = ".".join(imm)
+            if name not in self.m.procs or depth > 8:
+                raise Undecided("%s:%d: exec %s" % (self.m.path, ln, name))
+            out += self.run(self.m.procs[name].body, st, ev, depth + 1)
+            return
+        fam = {"dup": "Dup", "swap": "Swap", "movup": "MovUp", "movdn": "MovDn", "dupw": "DupW", "swapw": "SwapW", "movupw": "MovUpW", "movdnw": "MovDnW"}
+        done = True
+        if op in fam:
+            default = {"dup": 0, "swap": 1, "dupw": 0, "swapw": 1}.get(op)
+            n = int(imm[0]) if imm else default
+            if not self.move(st, "%s%d" % (fam[op], n)):
+                raise Undecided("%s:%d: %s" % (self.m.path, ln, ins))
+        elif op in ("drop", "dropw", "padw"):
+            self.move(st, {"drop": "Drop", "dropw": "DropW", "padw": "PadW"}[op])
+        elif op == "push":
+            for x in imm:
+                v = self.consts.get(x, None)
+                if v is None:
+                    v = int(x, 16) if x.startswith("0x") else int(x)
+                st.insert(0, ("c", v))
+        elif op == "eqw":
+            st.insert(0, self.fresh("flag"))
+        elif op in ("eq", "neq"):
+            if not imm:
+                st.pop(0)
+            st.pop(0)
+            st.insert(0, self.fresh("flag"))
+        elif op in ("assert_eqw",):
+            del st[:8]
+        elif op in ("assert", "assertz"):
+            v = st.pop(0)
+            if v[0] == "c" and ((op == "assertz" and v[1] != 0) or (op == "assert" and v[1] != 1)):
+                return          # an assertion on a constant that always fails: the path does not complete (unimplemented case)
+        elif op == "adv_push":
+            for _ in range(int(imm[0])):
+                st.insert(0, self.fresh("advice"))
+        elif op == "adv":
+            pass
+        elif op == "hmerge":
+            del st[:8]
+            h = self.fresh("hash")
+            st[:0] = [("f", h[1], "hash%d" % i) for i in range(4)]
+        elif op == "mtree_get":
+            d, i, root = st[0], st[1], tuple(st[2:6])
+            ev.append(("mtree_get", ln, d, i, root))
+            del st[:2]
+            v = self.fresh("node")
+            st[:0] = [("f", v[1], "node%d" % k) for k in range(4)]
+        elif op == "mtree_set":
+            d, i, root, val = st[0], st[1], tuple(st[2:6]), tuple(st[6:10])
+            del st[:10]
+            v = self.fresh("set")
+            newroot = tuple(("f", v[1], "newroot%d" % k) for k in range(4))
+            ev.append(("mtree_set", ln, d, i, root, newroot))
+            st[:0] = [("f", v[1], "old%d" % k) for k in range(4)] + list(newroot)
+        elif op == "mtree_verify":
+            ev.append(("mtree_verify", ln, st[4], st[5], tuple(st[6:10])))
+        else:
+            raise Undecided("%s:%d: instruction %s is outside the SMT provenance model" % (self.m.path, ln, ins))
+        out.append((st, ev))
+
+
+def r3_smt(ctx, F):
+    try:
+        M = Module(SMT)
+        txt = open(SMT).read()
+    except (MasmError, OSError) as e:
+        ctx.violation("UNANALYSABLE|smt", "stdlib/asm/collections/smt.masm", str(e)[:200])
+        return
+    consts = {m.group(1): int(m.group(2)) for m in re.finditer(r"^const\.(\w+)=(\d+)", txt, re.M)}
+    depth = consts.get("LEAF_DEPTH")
+    ctx.inst(key="LEAF_DEPTH", nontrivial=True)
+    ctx.oblig(depth == 64)
+    if depth != 64:
+        ctx.violation("smt-leaf-depth", "stdlib/asm/collections/smt.masm", "LEAF_DEPTH is %r; leaves of the sparse Merkle tree sit at depth 64" % depth)
+    n_ops = 0
+    for proc, layout in (("get", ["K", "R"]), ("set", ["V", "K", "R"])):
+        if proc not in M.procs or not M.procs[proc].exported:
+            ctx.violation("smt-procedure-missing|%s" % proc, "stdlib/asm/collections/smt.masm", "exported procedure %s not found" % proc)
+            continue
+        loc = "stdlib/asm/collections/smt.masm:%d" % M.procs[proc].line
+        stack = []
+        for w in layout:
+            stack += [("in", w, 3 - j) for j in range(4)]       # element 3 of a word is on top
+        stack += [("deep", i) for i in range(len(stack), 40)]
+        root_in = tuple(("in", "R", 3 - j) for j in range(4))
+        X = SmtFlow(M, consts)
+        try:
+            finals = X.run(M.procs[proc].body, stack, [])
+        except (Undecided, MasmError, IndexError) as e:
+            ctx.inst(key="smt::" + proc, nontrivial=True)
+            ctx.violation("UNANALYSABLE|smt::%s" % proc, loc, str(e)[:300])
+            continue
+        ctx.inst(key="smt::%s" % proc, nontrivial=True)
+        ctx.analysed("smt::%s: %d paths, Merkle operations per path %s" % (proc, len(finals), sorted(set(len(ev) for st, ev in finals))))
+        seen = set()
+        for st, ev in finals:
+            cur_root = root_in
+            for e in ev:
+                n_ops += 1
+                kind, ln, d, i, root = e[:5]
+                for what, got, want in (("depth", d, ("c", 64)), ("index", i, ("in", "K", 3)), ("root", root, cur_root)):
+                    ok = got == want
+                    ctx.oblig(ok)
+                    k = "smt-merkle-operand|%s|%s|%s" % (proc, kind, what)
+                    if not ok and (k, ln) not in seen:
+                        seen.add((k, ln))
+                        ctx.violation(k, "stdlib/asm/collections/smt.masm:%d" % ln,
+                                      "smt::%s: %s at line %d is given %s = %s; the tree is addressed by depth 64, the most significant key element K[3] and the current root (%s)"
+                                      % (proc, kind, ln, what, got, want))
+                if kind == "mtree_set":
+                    cur_root = e[5]
+            # returned root: [V, R] for get, [V_old, R_new] for set
+            okr = tuple(st[4:8]) == cur_root
+            ctx.oblig(okr)
+            if not okr and ("ret", proc) not in seen:
+                seen.add(("ret", proc))
+                ctx.violation("smt-returned-root|%s" % proc, loc, "smt::%s leaves %s as the root; expected %s" % (proc, st[4:8], "the root produced by its last mtree_set" if cur_root != root_in else "the input root"))
+    ctx.floor("smt-merkle-operations", n_ops, 6)
+
+
 def run(ctx, F):
     ctx.trusted += ["vlib/masm.py (MASM parser, positional word model for loc_storew/loc_loadw/mem_loadw/mem_storew, C05's data-movement table)",
                     "loop lemma: a loop whose body only drops words and whose guard is depth != 16 ends with depth 16; a loop that copies mem[r] to mem[w] and increments r, w and a counter from -n to 0 copies n consecutive words"]
-    ctx.assumptions += ["collections::smt and collections::mmr are not decided", "pipe_* procedures: only the loop-guard agreement is decided"]
+    ctx.assumptions += ["collections::smt: only the addressing of the Merkle operations and the returned root are decided (C18-R3); collections::mmr is not decided", "pipe_* procedures: only the loop-guard agreement is decided"]
     ctx.run_rule("C18-R1", "truncate_stack saves the top 16 in locals, loops only dropping words until depth 16, and restores the saved words to their original positions", r1_truncate, F)
+    ctx.run_rule("C18-R3", "smt::get / smt::set: on every path each mtree_get / mtree_set / mtree_verify is addressed by (LEAF_DEPTH = 64, K[3], current root) and the returned root is the input root or the one produced by the last mtree_set (provenance interpretation of smt.masm)", r3_smt, F)
     ctx.run_rule("C18-R2", "mem.masm loops: entry guard and end-of-body guard are the same function of the loop-carried stack; memcopy's body copies one word and advances the three counters; prologue/epilogue as documented", r2_mem_loops, F)
